@@ -11,7 +11,9 @@ ParentSeq == SetToSeq(ParentIds)          \* families 1..Len(ParentSeq): cardina
 SiteSeq == SetToSeq(UNION {{<<k, s>> : s \in SitesFor(k, Thorough)} : k \in JudgedKinds})   \* families 101..: one argument kind on one statement
 \* 401.. / 205: large multiplicities (cells, data-definition aggregate); 302 / 303 and 500..: histories
 \* 601..: odd white space, one argument kind on one statement (quick: one statement per kind)
-WsSiteSeq == SetToSeq(UNION {{<<k, s>> : s \in (IF Thorough THEN SitesFor(k, Thorough) ELSE {OneSite(k)})} : k \in JudgedKinds})
+\* (quick: every statement of a kind that has at most two, else one)
+WsSites(k) == IF Thorough \/ Cardinality(SitesOf(k)) <= 2 THEN SitesFor(k, Thorough) ELSE {OneSite(k)}
+WsSiteSeq == SetToSeq(UNION {{<<k, s>> : s \in WsSites(k)} : k \in JudgedKinds})
 AllFams == (1..Len(ParentSeq)) \cup {100 + i : i \in 1..Len(SiteSeq)} \cup {200, 201, 202, 203, 205, 206, 207, 208, 209, 300, 302, 303}
            \cup {400 + i : i \in 1..Len(ParentSeq)} \cup {500 + i : i \in 1..Len(SiteSeq)}
            \cup {600 + i : i \in 1..Len(WsSiteSeq)}
@@ -31,7 +33,7 @@ OrderExtProbes(f) == LET root == IF f = 206 THEN "module" ELSE "submodule" IN
 RevExtProbes(f) == LET root == IF f = 208 THEN "module" ELSE "submodule" IN
   {Probe(f, <<"rev", root, "ext", "">>, t, TRUE) : t \in RevInterleaved(root)}
 WsProbes(f) == LET kind == WsSiteSeq[f - 600][1]  s == WsSiteSeq[f - 600][2] IN
-  {LET t == ArgTree(s[1], s[2], a) IN Probe(f, <<"arg", kind, s[1], a>>, t, FALSE) : a \in WsCands(kind)}
+  {LET t == ArgTree(s[1], s[2], a) IN Probe(f, <<"arg", kind, s[1], a>>, t, FALSE) : a \in WsCands(kind) \cup GramCands(kind, Thorough)}
 RevProbes == UNION {{Probe(202, <<"rev", root, "", "">>, t, TRUE) : t \in RevTrees(root)} : root \in {"module", "submodule"}}
 KwProbes == {[fam |-> 203, lab |-> <<"kw", k, "", "">>, kwq |-> k, known |-> k \in Keywords] :
                k \in Keywords \cup {ExtKw, "foo", "yin", "p:leaf", "yin_element", "leaflist"}}
